@@ -64,6 +64,20 @@ theorem C54_stream (cp : Comp S) (dec : Bytes → Option Bytes) (hc : cp.Correct
   rw [hflat, htr, hc pre hpre, ← hwr, htr, written_append]
   simp [written]
 
+/-- non-vacuity of C54_stream: the concrete compressor `toy` (write: `1 x` per byte, flush: `0`,
+    close: `2`; `toyDec` inverts it) satisfies BOTH contracts, so the theorem applies to it for every
+    chunking / flush size / reader … -/
+example (chunks : List Bytes) (fs : Nat) (hfs : 0 < fs) (ps : List Nat)
+    (h : (session toy fs { src := chunks } ps).2.1 = true) :
+    toyDec (session toy fs { src := chunks } ps).1.flatten = some chunks.flatten :=
+  (C54_stream toy toyDec toy_correct toy_flushProgress chunks fs hfs ps h).2.2.2
+
+/-- … and the EOF hypothesis is reachable: body `[7,8,9]` in chunks `[7] [] [8,9]`, flush size 2, reader
+    buffers of 3 bytes — EOF at the 6th Read, output decodes to the body. -/
+example : (session toy 2 { src := [[7], [], [8, 9]] } [3, 3, 3, 3, 3, 3, 3, 3]).2.1 = true ∧
+    toyDec (session toy 2 { src := [[7], [], [8, 9]] } [3, 3, 3, 3, 3, 3, 3, 3]).1.flatten = some [7, 8, 9] := by
+  decide
+
 /-- **C54_headers.**  If the handler installs a compression filter then it announces that coding in
     Content-Encoding, removes Content-Length, the response was not already encoded, and the request's
     Accept-Encoding contains the coding as a `HasToken` token; otherwise both headers are untouched. -/
